@@ -23,3 +23,23 @@ def contracts():
 
 
 ASSUMPTIONS = _c08.ASSUMPTIONS + ["async functions are out of reach: yield-point invariants not discharged"]
+
+
+_c10_base = contracts
+
+
+def contracts():
+    # a reference handed to the constructor is linked (recorded) like one assigned later — otherwise a
+    # later plain value cannot cancel it
+    from contracts import c12 as _c12
+    c = _c12.setup_params_contract(["C08/"])
+    c.prop = PROP
+    return _c10_base() + [c]
+
+_c10_base2 = contracts
+
+
+def contracts():
+    c = _c08.syncing_contract()
+    c.prop = PROP
+    return _c10_base2() + [c]
